@@ -36,7 +36,12 @@ def get_inherited(t: Type) -> Type:
     else:
         return Any  # type: ignore
 
-    r = base_classes[0]  # type: ignore
+    # The base that carries type information: the first parameterized one (an ordinary mixin
+    # class listed before it tells us nothing).
+    r = next(
+        (b for b in base_classes if get_origin(b) is not None),  # type: ignore
+        base_classes[0],  # type: ignore
+    )
 
     # A class that derives directly from `Generic[T]` has nothing further to inherit from.
     if get_origin(r) is typing.Generic:
@@ -207,21 +212,13 @@ def get_method_and_class(class_object: Type, method_name: str) -> Optional[Tuple
     if not hasattr(class_object, "__mro__"):
         class_object = get_origin(class_object)  # type: ignore
 
-    # Walk the resolution hierarchy to find the method
-    found_obj = None
-    found_method = None
+    # Walk the resolution hierarchy to find the class that defines the method (classes
+    # that do not have it at all, e.g. a mixin listed first, are passed over).
+    found_method = getattr(class_object, method_name, None)
+    if found_method is None:
+        return None
     for c in inspect.getmro(class_object):
-        m = getattr(c, method_name, None)
-        if found_method is None and m is None:
-            # We can't find the method!
-            return None
-        if found_method is None:
-            found_obj = c
-            found_method = m
-        else:
-            if found_method == m:
-                found_obj = c
-            else:
-                return (found_obj, found_method)  # type: ignore
+        if method_name in vars(c):
+            return (c, found_method)
 
-    return (found_obj, found_method)  # type: ignore
+    return (class_object, found_method)
